@@ -34,8 +34,8 @@ impl Check for C10 {
     }
     fn budget(&self, tier: Tier) -> u64 {
         match tier {
-            Tier::Quick => 1500,
-            Tier::Thorough => 40_000,
+            Tier::Quick => 5000,
+            Tier::Thorough => 100_000,
         }
     }
     fn run(&self, ch: &mut Chooser, _tier: Tier) -> RunOutcome {
